@@ -861,8 +861,13 @@ impl<'a, W: Write> YamlSerializer<'a, W> {
                 && !self.pending_space_after_colon;
             // If we are a mapping value (space after colon was pending), we will handle
             // the newline later in SeqSer::serialize_element to keep empty sequences inline.
+            let anchored = self.pending_anchor_id.is_some();
             self.write_anchor_for_complex_node()?;
-            if inline_first {
+            if anchored && inline_first {
+                // `- &a1` ends that line: the anchored sequence starts on the next one, indented
+                // under the dash like any other nested block.
+                self.pending_inline_map = false;
+            } else if inline_first {
                 // Keep staged inline (pending_inline_map) so the child can inline its first dash.
                 // Ensure we stay mid-line so the child can emit its first dash inline.
                 self.at_line_start = false;
